@@ -58,6 +58,11 @@ pub struct ExploreCfg {
     pub stack_size: usize,
     /// stop after this many violations have been collected (the exploration is then incomplete)
     pub max_violations: usize,
+    /// deviation bounding: ALSO picking a non-default task when the running one blocks / ends /
+    /// yields costs one unit of `bound` (default = next task in round-robin order).  The explored
+    /// set is a subset of the preemption-bounded one at the same bound, but polynomial in the
+    /// number of blocking points, which lets 3+ client programs reach higher bounds.
+    pub count_free_switches: bool,
 }
 impl Default for ExploreCfg {
     fn default() -> Self {
@@ -68,6 +73,7 @@ impl Default for ExploreCfg {
             step_cap: 20_000,
             stack_size: 1 << 20,
             max_violations: 64,
+            count_free_switches: false,
         }
     }
 }
@@ -357,13 +363,24 @@ impl Scheduler for Sched {
             }
             v
         } else {
-            let o = others(&ids);
+            let mut o = others(&ids);
             if o.is_empty() {
                 ids.clone()
             } else {
+                if d.cfg.count_free_switches && o.len() > 1 {
+                    // default = the next task after the current one in round-robin order
+                    let c = cur.unwrap_or(0);
+                    let k = o.iter().position(|t| *t > c).unwrap_or(0);
+                    o.rotate_left(k);
+                    if d.pre_now >= d.bound {
+                        o.truncate(1);
+                    }
+                }
                 o
             }
         };
+        let free_switch = !cur_runnable;
+        let default_choice = opts[0];
         let chosen = if opts.len() == 1 {
             opts[0]
         } else {
@@ -375,6 +392,8 @@ impl Scheduler for Sched {
             opts[idx]
         };
         if cur_runnable && Some(chosen) != cur {
+            d.pre_now += 1;
+        } else if free_switch && d.cfg.count_free_switches && chosen != default_choice {
             d.pre_now += 1;
         }
         Some(TaskId::from(chosen))
